@@ -799,9 +799,9 @@ def run(ctx):
     faults = [f for _, _, f in _gen(ctx, "faults", 0, 1, ["all"], "faults")]
     rng = random.Random(f"{ctx.seed}:subset")
     if thorough:
-        walk, n1 = _walk_cases(_gen(ctx, "cases", 4, 2, ["all"], "all"), faults, 30000, rng, "a")
+        walk, n1 = _walk_cases(_gen(ctx, "cases", 4, 2, ["all"], "all"), faults, 20000, rng, "a")
         rest, n2 = _walk_cases(_gen(ctx, "cases", 3, 2, ["filtered", "modsince", "crsince", "infolder"], "rest"),
-                               faults, 30000, rng, "r")
+                               faults, 20000, rng, "r")
     else:
         walk, n1 = _walk_cases(_gen(ctx, "cases", 3, 2, ["all"], "all"), faults, 4000, rng, "a")
         rest, n2 = _walk_cases(_gen(ctx, "cases", 2, 2, ["filtered", "modsince", "crsince", "infolder"], "rest"),
